@@ -147,13 +147,13 @@ EventBound == [][S'.nev <= 40 + 6 * TotalElements + 4 * TotalElements * (LiveIns
 LiveKids(X, q) == SelectSeq(q, LAMBDA c : ~DoneF(T.flows[c]))
 SameFlow(k) == LET f == S.flows[k]  g == T.flows[k] IN
   /\ f.status = g.status /\ f.heads = g.heads /\ f.ctx = g.ctx /\ f.actions = g.actions /\ f.activated = g.activated
-  /\ f.loop = g.loop /\ f.scopes = g.scopes /\ f.forks = g.forks /\ f.newinst = g.newinst
+  /\ f.loop = g.loop /\ f.scopes = g.scopes /\ f.forks = g.forks /\ f.newinst = g.newinst /\ f.globals = g.globals
   /\ LiveKids(S, f.children) = LiveKids(T, g.children)
 AgeInvisible ==
   /\ S.out = T.out
   /\ Len(S.flows) = Len(T.flows)
   /\ \A k \in 1..Len(T.flows) : ~DoneF(T.flows[k]) => SameFlow(k)
-  /\ S.index = T.index
+  /\ S.index = T.index /\ S.gctx = T.gctx
   /\ Len(S.actions) = Len(T.actions)
   /\ \A a \in 1..Len(T.actions) : (\E k \in 1..Len(T.flows) : ~DoneF(T.flows[k]) /\ a \in RangeS(T.flows[k].actions)) => S.actions[a] = T.actions[a]
 (* what the unguarded dictionary look-ups of the code need (a discarded instance / action would be a KeyError): an
